@@ -109,6 +109,7 @@ type Exec struct {
 	Events   []Event
 	MaxSteps int
 	Prio     func(name string) int
+	LateSite func(site string) bool
 	tearing  bool
 	diverged string
 	// shared-variable bookkeeping, owned by the explorer and persistent across executions
@@ -546,8 +547,12 @@ func (x *Exec) enabled() []Transition {
 		}
 		return 0
 	}
+	late := func(t *Thread) bool { return x.LateSite != nil && t.op != nil && x.LateSite(t.op.site) }
 	sort.SliceStable(ts, func(i, j int) bool {
 		a, b := ts[i], ts[j]
+		if la, lb := late(a), late(b); la != lb {
+			return lb // a thread whose pending operation is at a "late" site runs after everybody else
+		}
 		if (a == x.prev) != (b == x.prev) {
 			return a == x.prev
 		}
